@@ -244,14 +244,20 @@ func GenRequest(tp *core.Tape, idx int, last bool, o GenOpt) *GenReq {
 				}
 			}
 			m.TEName = mixCase(tp, "Transfer-Encoding")
-			nt := tp.Weighted("ntrail", []int{6, 2, 1, 1})
+			nt := tp.Weighted("ntrail", []int{6, 2, 1, 1, 1})
+			unannounced := nt == 4
+			if unannounced {
+				nt = 1 // (added weight) a trailer field that no Trailer header announces: legal, the announcement is a SHOULD
+			}
 			if nt > 0 {
 				names := []string{"X-Checksum", "X-Trail-B"}[:nt%3]
 				if nt == 3 {
 					// (added weight) a field name that begins like a last-chunk line: any token is a legal field name
 					names = []string{[]string{"0-Sum", "0", "00-X", "0x"}[idx%4]}
 				}
-				m.Headers = append(m.Headers, wire.Header{K: "Trailer", V: strings.Join(names, ", ")})
+				if !unannounced {
+					m.Headers = append(m.Headers, wire.Header{K: "Trailer", V: strings.Join(names, ", ")})
+				}
 				for i, n := range names {
 					if o.Fold && tp.Chance("tfold", 1, 4) {
 						raw, val := foldValue(tp, n)
@@ -262,6 +268,9 @@ func GenRequest(tp *core.Tape, idx int, last bool, o GenOpt) *GenReq {
 					}
 				}
 				g.ExpTrailer = m.Trailers
+				if unannounced {
+					g.ExpTrailer = nil // hertz keeps the announced trailer fields only; the request itself is unaffected
+				}
 			}
 		} else {
 			m.CLName = mixCase(tp, "Content-Length")
